@@ -878,6 +878,7 @@ const kfF19 = "F19-store-open-trusts-last-clog-entry"
 const kfF21 = "F21-aht-dataat-trusts-commit-log-size"
 const kfF23 = "F23-tbtree-root-node-size-unchecked"
 const kfF17 = "F17-limits-in-commit-log-header-trusted"
+const kfF17b = "F17b-unbounded-limits-in-commit-log-header"
 const kfF22 = "F22-txlog-vlen-unchecked"
 
 // innermostMeta returns the client metadata (singleapp -> multiapp -> client) of a chunk file.
@@ -917,16 +918,16 @@ func innermostMeta(b []byte) map[string][]byte {
 	return m
 }
 
-const kfF17b = "F17b-unbounded-limits-in-commit-log-header"
-
-// limits that Options.Validate bounds (F17) and limits for which no bound exists anywhere (F17b)
-var (
-	limitKeys    = []string{"MAX_KEY_LEN", "FILE_SIZE"}
-	openEndedKey = []string{"MAX_TX_ENTRIES", "MAX_VALUE_LEN", "MAX_NODE_SIZE", "MAX_KEY_SIZE", "MAX_VALUE_SIZE"}
-)
-
-// limitsAlteredKnown: a commit-log chunk of the store (or of its index) carries different limits than the pristine one.
-func limitsAlteredKnown(img *dirImage, override map[string][]byte, limitKeys []string) bool {
+// limitsKnown classifies an altered limit in the innermost metadata of a commit-log chunk:
+//
+//	F17  - a value that Options.Validate would never have let in: MAX_KEY_LEN outside 1..1024, FILE_SIZE outside
+//	       1..MaxFileSize-1, MAX_TX_ENTRIES or MAX_VALUE_LEN <= 0
+//	F17b - a value for which no bound exists anywhere and that grew: MAX_TX_ENTRIES, MAX_VALUE_LEN above the pristine
+//	       value; any change of the tbtree limits (MAX_NODE_SIZE, MAX_KEY_SIZE, MAX_VALUE_SIZE)
+//
+// Smaller (valid) limits are NOT excluded: the store then meets records that exceed them.
+func limitsKnown(img *dirImage, override map[string][]byte) string {
+	res := ""
 	for n, b := range override {
 		if !strings.Contains(n, "commit/") {
 			continue
@@ -939,13 +940,41 @@ func limitsAlteredKnown(img *dirImage, override map[string][]byte, limitKeys []s
 		if mo == nil || mm == nil {
 			continue
 		}
-		for _, k := range limitKeys {
-			if vo, ok := mo[k]; ok && string(vo) != string(mm[k]) && len(mm[k]) >= 8 {
-				return true
+		val := func(m map[string][]byte, k string) (int64, bool) {
+			v, ok := m[k]
+			if !ok || len(v) < 8 {
+				return 0, false
+			}
+			return int64(binary.BigEndian.Uint64(v)), true
+		}
+		for _, k := range []string{"MAX_KEY_LEN", "FILE_SIZE", "MAX_TX_ENTRIES", "MAX_VALUE_LEN", "MAX_NODE_SIZE", "MAX_KEY_SIZE", "MAX_VALUE_SIZE"} {
+			vo, ok1 := val(mo, k)
+			vm, ok2 := val(mm, k)
+			if !ok1 || !ok2 || vo == vm {
+				continue
+			}
+			switch k {
+			case "MAX_KEY_LEN":
+				if vm < 1 || vm > 1024 {
+					return kfF17
+				}
+			case "FILE_SIZE":
+				if vm < 1 || vm >= 1<<31-1 {
+					return kfF17
+				}
+			case "MAX_TX_ENTRIES", "MAX_VALUE_LEN":
+				if vm <= 0 {
+					return kfF17
+				}
+				if vm > vo {
+					res = kfF17b
+				}
+			default:
+				res = kfF17b
 			}
 		}
 	}
-	return false
+	return res
 }
 
 // vLenKnown: an in-place edit gave a tx-log record a value length above the store's MaxValueLen (256 in the fixture).
@@ -965,7 +994,8 @@ func vLenKnown(img *dirImage, override map[string][]byte, txFields map[string][]
 }
 
 // ahtSizeKnown: some (complete) entry of the aht commit log announces a payload
-// larger than the whole data log (the fixture's commit log is a single chunk).
+// larger than the whole data log, or an offset that is negative as int64 (the
+// fixture's commit log is a single chunk).
 func ahtSizeKnown(img *dirImage, override map[string][]byte, deleted map[string]bool, prefix string) bool {
 	get := func(n string) []byte {
 		if deleted[n] {
@@ -1001,6 +1031,9 @@ func ahtSizeKnown(img *dirImage, override map[string][]byte, deleted map[string]
 	for i := 0; i+12 <= len(c); i += 12 {
 		if sz := int(binary.BigEndian.Uint32(c[i+8:])); sz > dataLen && sz > 16<<10 {
 			return true
+		}
+		if off := binary.BigEndian.Uint64(c[i:]); off >= 1<<63 {
+			return true // negative as int64: passes `pLogFileSize < pLogSize`, SetOffset then walks ~2^50 chunk ids
 		}
 	}
 	return false
@@ -1450,6 +1483,25 @@ func TestOpenCorruptedDirectories(t *testing.T) {
 				desc += name + ": cloned as a later chunk"
 			default:
 				l := layoutFile(name, data)
+				var limits []field
+				for _, f := range l.f {
+					for _, k := range []string{"MAX_TX_ENTRIES.val", "MAX_KEY_LEN.val", "MAX_VALUE_LEN.val", "MAX_NODE_SIZE.val", "MAX_KEY_SIZE.val", "MAX_VALUE_SIZE.val", "FILE_SIZE.val"} {
+						if strings.HasSuffix(f.name, k) && f.n == 8 {
+							limits = append(limits, f)
+						}
+					}
+				}
+				if len(limits) > 0 && rapid.IntRange(0, 5).Draw(rt, "shrinkLimit") == 0 {
+					// a limit smaller than what the log already holds: records now exceed it
+					f := limits[rapid.IntRange(0, len(limits)-1).Draw(rt, "limit")]
+					cur := getBE(data[f.off : f.off+f.n])
+					nv := rapid.SampledFrom([]uint64{1, 2, 3, cur / 2, cur - 1}).Draw(rt, "smaller")
+					b := l.clone()
+					putBE(b[f.off:f.off+f.n], nv)
+					override[name] = b
+					desc += fmt.Sprintf("%s: shrink %s to %d", name, f.name, nv)
+					break
+				}
 				b, d := mutateOnce(rt, l, l.clone(), fmt.Sprintf("e%d.", e))
 				override[name] = b
 				desc += name + ": " + d
@@ -1471,11 +1523,8 @@ func TestOpenCorruptedDirectories(t *testing.T) {
 				known = kfF19
 			}
 		}
-		if known == "" && (comp == "store" || comp == "tbtree") && limitsAlteredKnown(img, override, limitKeys) {
-			known = kfF17
-		}
-		if known == "" && (comp == "store" || comp == "tbtree") && limitsAlteredKnown(img, override, openEndedKey) {
-			known = kfF17b
+		if known == "" && (comp == "store" || comp == "tbtree") {
+			known = limitsKnown(img, override)
 		}
 		if known == "" && comp == "store" && vLenKnown(img, override, fx.txFields) {
 			known = kfF22
